@@ -296,16 +296,24 @@ def campaign(trace: dict, make_system, probes: Counter, yield_fn=None) -> Violat
                     return Violation(ID, "leaf_missing_from_checkpoint", k - 1, {**feats, "param": i, "note": "parameter with state missing from the checkpoint"})
                 flat = sd["state"][A.nm[i]]
                 walked = list(spec.walk_state(A.opt.state[p]))
-                ids = {id(t) for _, t in walked}
-                flat_ids = [id(v) for v in flat.values() if isinstance(v, torch.Tensor)]
-                if len(flat_ids) != len(set(flat_ids)) or len(flat_ids) != len(walked):
-                    # detach() in state_dict() creates new tensor objects: compare storage instead
-                    ptrs = sorted(spec._local(t).data_ptr() for _, t in walked if spec._local(t).numel() > 0)
-                    fptrs = sorted(spec._local(v).data_ptr() for v in flat.values() if isinstance(v, torch.Tensor) and spec._local(v).numel() > 0)
-                    if len(fptrs) != len(set(fptrs)) and len(ptrs) == len(set(ptrs)):
-                        return Violation(ID, "flat_key_collision", k - 1, {**feats, "param": i})
-                    if set(ptrs) - set(fptrs):
-                        return Violation(ID, "leaf_missing_from_checkpoint", k - 1, {**feats, "param": i, "missing": len(set(ptrs) - set(fptrs))})
+                # every tensor reachable from optimizer.state (own walker) is in the checkpoint under the key of its own
+                # path, with its current value; whether the saved tensor aliases the live one is not part of the property
+                import json as _json
+
+                flat_by_path = {}
+                for fk, fv in flat.items():
+                    try:
+                        flat_by_path[tuple(_json.loads(fk))] = fv
+                    except Exception:  # noqa: BLE001
+                        flat_by_path[(fk,)] = fv
+                if len(flat_by_path) != len(flat):
+                    return Violation(ID, "flat_key_collision", k - 1, {**feats, "param": i})
+                for path, t in walked:
+                    fv = flat_by_path.get(tuple(path))
+                    if fv is None or not isinstance(fv, torch.Tensor):
+                        return Violation(ID, "leaf_missing_from_checkpoint", k - 1, {**feats, "param": i, "path": [str(x) for x in path]})
+                    if not spec.bit_equal(fv, t):
+                        return Violation(ID, "flat_key_collision", k - 1, {**feats, "param": i, "path": [str(x) for x in path], "note": "value under the path's key differs from the live tensor"})
                 for key in A.opt.state[p]:
                     if key != "step" and not any(True for _ in spec.walk_state(A.opt.state[p][key])):
                         leafless = True
